@@ -48,8 +48,8 @@ def shards(tier, seed):
                 for fails in itertools.product((0, 1), repeat=K):
                     out.append({"nsched": nsched, "K": K, "fails": list(fails), "recomp_max": 2,
                                 "factors": "dyadic"})
-        out.append({"nsched": 3, "K": 4, "fails": [0, 0, 0, 0], "recomp_max": 2, "factors": "default"})
-        out.append({"nsched": 4, "K": 4, "fails": [0, 0, 0, 0], "recomp_max": 2, "factors": "dyadic"})
+        out.append({"nsched": 4, "K": 3, "fails": [0, 0, 0], "recomp_max": 2, "factors": "dyadic"})
+        out.append({"nsched": 3, "K": 3, "fails": [0, 1, 1], "recomp_max": 1, "factors": "default"})
     else:
         for nsched in (2, 3, 4):
             K = 5
